@@ -567,6 +567,11 @@ func Select(a, i *Term) *Term {
 				a = a.Args[0]
 				continue
 			}
+			if offsetDistinct(i, j) {
+				// two references below the same water mark at different offsets
+				a = a.Args[0]
+				continue
+			}
 			if j.IsInt() && j.Int.Sign() < 0 && nonNegRef[i] {
 				// a pre-state reference never aliases a cell allocated by this function
 				a = a.Args[0]
@@ -1311,4 +1316,32 @@ func initImageLookup(a, i *Term) *Term {
 		return nil
 	}
 	return m[i.Int.String()]
+}
+
+// offsetDistinct: i and j are  X - c1  and  X - c2  (or X itself, c = 0) for the same X and different literals.
+func offsetDistinct(i, j *Term) bool {
+	split := func(t *Term) (*Term, *big.Int) {
+		if t.Op == "-" && len(t.Args) == 2 && t.Args[1].IsInt() {
+			return t.Args[0], t.Args[1].Int
+		}
+		if t.Op == "+" && len(t.Args) == 2 && t.Args[1].IsInt() {
+			return t.Args[0], new(big.Int).Neg(t.Args[1].Int)
+		}
+		return t, big.NewInt(0)
+	}
+	bi, ci := split(i)
+	bj, cj := split(j)
+	if bi == bj && !bi.IsInt() && ci.Cmp(cj) != 0 {
+		return true
+	}
+	// two references handed out by allocation on one path - a negative literal, or a water mark minus a positive
+	// offset - are different whenever they are written differently: marks only go down, and each offset below a
+	// mark is handed out once
+	isAlloc := func(t, b *Term, c *big.Int) bool {
+		if t.IsInt() {
+			return t.Int.Sign() < 0
+		}
+		return b.Op == "var" && strings.HasPrefix(b.Str, "lw!") && c.Sign() > 0
+	}
+	return i != j && isAlloc(i, bi, ci) && isAlloc(j, bj, cj)
 }
